@@ -66,6 +66,8 @@ const (
 )
 
 // Over replaces the text of glyph Pos (modulo the number of glyphs) of a run.
+// The text may be empty: a glyph which carries no text of its own (trailing
+// glyph of a one-to-many substitution, decoration, text supplied separately).
 type Over struct {
 	Pos  int    `json:"pos"`
 	Text string `json:"text"`
@@ -125,6 +127,8 @@ type observed struct {
 	twoByte     bool
 	interleaved bool
 	onlyNotdef  bool // a font showed nothing but glyph 0 and was not read back
+	emptyText   bool // a glyph other than glyph 0 was shown with empty text and read back
+	onlyEmpty   bool // such a glyph was never shown with any other text in its font
 	glyphs      int
 	maxCodes    int
 	ops         map[string]bool
@@ -271,7 +275,7 @@ func validate(c *Case) error {
 			return fmt.Errorf("invalid case: run %+v", r)
 		}
 		for _, o := range r.Over {
-			if o.Text == "" || !utf8.ValidString(o.Text) || o.Pos < 0 {
+			if !utf8.ValidString(o.Text) || o.Pos < 0 { // the empty text is allowed
 				return fmt.Errorf("invalid case: override %+v", o)
 			}
 		}
@@ -486,6 +490,29 @@ func checkCase(c *Case) error {
 			}
 			if len(sg.code) > 1 {
 				o.twoByte = true
+			}
+		}
+	}
+	for fi, m := range models {
+		withText, without := map[int]bool{}, map[int]bool{}
+		for i := range c.Runs {
+			if c.Runs[i].Font != fi {
+				continue
+			}
+			for _, sg := range rs[i].glyphs {
+				if sg.g.GID == 0 {
+					continue
+				}
+				if sg.g.Text == "" {
+					without[int(sg.g.GID)] = true
+				} else {
+					withText[int(sg.g.GID)] = true
+				}
+			}
+		}
+		for gid := range without {
+			if !withText[gid] && m.real > 0 {
+				o.onlyEmpty = true
 			}
 		}
 	}
@@ -731,6 +758,12 @@ func readBack(c *Case, mf *memfile.MemFile, models []*fontModel, names []pdf.Nam
 			}
 			if wc[j].Text != sg.g.Text {
 				return fmt.Errorf("%s: Layouter.Codes gives text %q", what, wc[j].Text)
+			}
+			if sg.g.Text == "" {
+				// shown without text: the reader may still derive a text from
+				// the glyph name, so nothing is promised about its side
+				o.emptyText = true
+				continue
 			}
 			text := rc[j].Text
 			if text == "" {
